@@ -47,7 +47,8 @@ def items(tier):
 
 
 def item_strategy(sg, tier):
-    return st.fixed_dictionaries({"crystal": gx.crystal_descs(sgs=[sg], salt=sg % 89), "pres": gx.presentations(identity_ok=False)})
+    return st.fixed_dictionaries({"crystal": gx.crystal_descs(sgs=[sg], salt=sg % 89), "pres": gx.presentations(identity_ok=False),
+                                  "other": gx.crystal_descs(salt=(sg * 3 + 1) % 89)})
 
 
 def run_case(desc):
@@ -75,6 +76,29 @@ def run_case(desc):
             out.fail("chiral-iff-sohncke", "%s description (%s): detected group %d is %sa Sohncke group but get_is_chiral() = %r"
                      % (tag, gx.pres_class(pres), sgn, "" if expect else "not ", chiral), key="chiral-iff-sohncke:" + ("sohncke" if expect else "achiral"))
         flags.append((int(sgn), bool(chiral)))
+    # history: one analyser object re-used through the public set_system() for a different crystal must answer for the
+    # crystal it currently holds (a stale cache would repeat the previous answer)
+    if desc.get("other") is not None:
+        oc, of, on, ost = gx.conditioned(desc["other"])
+        if ost == "ok" and gx.well_conditioned(oc, of @ oc, on) is not None:
+            at_o = gx.make_atoms(oc, of @ oc, on)
+            c2, pos, n2 = gx.apply_presentation(cell, frac, nums, p)
+            at_a = gx.make_atoms(c2, pos, n2)
+
+            def reuse():
+                an = SymmetryAnalyzer(at_a, symmetry_tol=1e-3)
+                first = an.get_is_chiral()
+                an.set_system(at_o)
+                return first, int(an.get_space_group_number()), bool(an.get_is_chiral())
+            ok, r = call(reuse)
+            if not ok:
+                out.fail("returns-normally", "set_system history: %r" % r, key="exc-history:" + exc_key(r))
+            else:
+                exp = r[1] in spgref.sohncke()
+                out.cls("history:set_system", "history:class-changes" if exp != bool(r[0]) else "history:class-same")
+                if r[2] != exp:
+                    out.fail("chiral-iff-sohncke-after-set_system", "after set_system() the analyser holds a group-%d crystal (%sSohncke) but get_is_chiral() = %r (it answered %r for the previous crystal)"
+                             % (r[1], "" if exp else "not ", r[2], r[0]))
     if flags[0][0] == flags[1][0] and flags[0][1] != flags[1][1]:
         out.fail("presentation-independent", "flag %r in the standard setting, %r after %s" % (flags[0][1], flags[1][1], gx.pres_class(p)))
     _COVER[flags[0][0]] = _COVER.get(flags[0][0], 0) + 1
